@@ -201,6 +201,10 @@ def t_cfg(ctx, kd):
 
 
 def judge_trace(ctx, trace, source, kd, totals, max_events=30000):
+    # one chunk per available worker (a chunk is one JVM), within [1000, max_events] events
+    with open(trace) as f:
+        n = sum(1 for _ in f)
+    max_events = max(1000, min(max_events, n // min(lib.NCPU, 16) + 1))
     v = lib.judge(ctx, MODULE_T, t_cfg(ctx, kd), trace, max_events=max_events, heap="3g")
     for k in STAT_KEYS:
         totals[k] = totals.get(k, 0) + v.get(k, 0)
@@ -382,7 +386,7 @@ def run(ctx):
     n017 = tla_intset(range(18))
     if ctx.quick:
         reach = [("seq", dict(Family='"seq"', D=4)),
-                 ("edge", dict(Family='"edge"', D=1, D2=1, N0=n017, Pats="{1, 2, 3, 4, 5}", Orders='{"tf", "ft"}')),
+                 ("edge", dict(Family='"edge"', D=1, D2=1, N0=n017, Pats="{1, 2, 3, 4, 5}", Orders='{"ft"}')),
                  ("size", dict(Family='"size"', D=5))]
         gen = [("seq", dict(Family='"seq"', D=4), [K_INSTALL], (K_DL1, K_DL2, K_DL3)),
                ("seq5v", dict(Family='"seq"', D=5, MaxBad=0), [K_INSTALL], (K_DL3, K_DL1, K_DL2)),
@@ -418,7 +422,7 @@ def run(ctx):
         distinct += dn
     # deterministic sweep over every file count 0..70 on every container kind + seeded random programs
     sweep_args = ["--sweep", 70] + (["--lite"] if ctx.quick else [])
-    for source, args, maxev in (("sweep 0..70", sweep_args, 2000), (f"random seed={ctx.seed}", ["--random", nrand], 2000)):
+    for source, args, maxev in (("sweep 0..70", sweep_args, 4000), (f"random seed={ctx.seed}", ["--random", nrand], 4000)):
         tag = source.split()[0]
         if only and tag not in only:
             continue
